@@ -60,11 +60,18 @@ Groups(hi, lo, n, E, acc) ==
 Keep(slots, E, R, sparse) ==
   IF ~sparse THEN slots
   ELSE SelectSeq(slots, LAMBDA t : LET m == ModLE(t, E) IN m % R \in {0, R - 1} \/ m >= E - 2 \/ m <= 1)
+\* after the first epoch group the same slots are asked again under a DIFFERENT entropy and then once more under the
+\* first one (an implementation must not key anything on the epoch or slot alone)
 AssignCase(V, C, E, R, hi, lo, n, sparse, tag) ==
-  LET gs == Groups(hi, lo, n, E, <<>>) IN
-  [kind |-> "assign", V |-> V, C |-> C, E |-> E, R |-> R, tag |-> tag,
-   epochs |-> [g \in 1..Len(gs) |-> LET e == Ent(V + hi, g + tag) IN
-                 [e |-> e, queries |-> HashQueries(e, V), slots |-> Keep(gs[g], E, R, sparse)]]]
+  LET gs == Groups(hi, lo, n, E, <<>>)
+      Grp(g) == LET e == Ent(V + hi, g + tag) IN [e |-> e, queries |-> HashQueries(e, V), slots |-> Keep(gs[g], E, R, sparse)]
+      main == [g \in 1..Len(gs) |-> Grp(g)]
+      first == main[1].slots
+      e2 == Ent(V + hi, 50 + tag)
+      alt == [e |-> e2, queries |-> HashQueries(e2, V), slots |-> SubSeq(first, 1, Min2(3, Len(first)))]
+      back == [e |-> main[1].e, queries |-> main[1].queries, slots |-> SubSeq(first, 1, Min2(2, Len(first)))]
+  IN [kind |-> "assign", V |-> V, C |-> C, E |-> E, R |-> R, tag |-> tag,
+      epochs |-> <<main[1], alt, back>> \o SubSeq(main, 2, Len(main))]
 AssignCases ==
   IF Thorough THEN
     {AssignCase(6, 2, 12, 4, hi, 0, 36 + 5, FALSE, 1) : hi \in {0, 32767, 32768, 65535}}
